@@ -116,6 +116,8 @@ def st_run(draw) -> Dict[str, Any]:
     reqs = [{"id": f"r{j}", "o": draw(site), "d": draw(site), "t": start + j * every + 13, "pax": 1, "fleet": None} for j in range(min(400, nsteps * dt // every))]
     return {"dt": dt, "start": start, "nsteps": nsteps, "sites": sites, "schedules": schedules, "bases": bases, "stations": stations, "vehicles": vehicles, "requests": reqs,
             "idle_timeout": draw(st.sampled_from([1800, 600])),
+            # a quarter of the runs load the scenario a second time from the same path after its shift table was edited (seconds of displacement)
+            "reload": draw(st.sampled_from([0, 0, 0, 3600, 7 * 3600 + 30])),
             # which activities the dispatcher may take vehicles from is configuration (the shipped Manhattan scenario
             # includes vehicles charging at their base - where off-shift human drivers spend their time)
             "dispatch_states": draw(st.sampled_from([["idle", "repositioning", "reservebase", "dispatchbase"],
@@ -142,7 +144,15 @@ def check_run(case: Dict[str, Any]) -> Tuple[List[Violation], Set[str], Dict[str
         shift[s[0]] = (a, b)
         if a > b:
             flags.add("wrapping_shift")
-    world = World(w, gens=(), builtin_first=True)
+    if case.get("reload"):
+        # the scenario was loaded before, from the same path, with every shift displaced (the files were edited since)
+        def _hms2(x):
+            return "%02d:%02d:%02d" % (x // 3600, x % 3600 // 60, x % 60)
+
+        w0 = dict(w, schedules=[[sid, _hms2((shift[sid][0] + case["reload"]) % 86400), _hms2((shift[sid][1] + case["reload"]) % 86400)] for sid, _, _ in w["schedules"]], requests=[])
+        World(w0, gens=(), builtin_first=True, fixed_dir=True).close()
+        flags.add("scenario_files_edited_and_reloaded")
+    world = World(w, gens=(), builtin_first=True, fixed_dir=bool(case.get("reload")))
     try:
         rp = world.rp
         cap = _mk_capture()()
